@@ -188,7 +188,8 @@ type stepObs struct {
 	linked int
 	open   []bool
 	states []int
-	target int // index of the session this request was routed to (-1 none) -- for the oracle
+	tcp    []bool // per session: transport is interleaved TCP (for the C19 oracle; not compared)
+	target int    // index of the session this request was routed to (-1 none) -- for the oracle
 }
 
 type failure struct{ class, detail string }
@@ -419,6 +420,8 @@ func runCase(c *core, cs caseSpec) (res caseResult) {
 			} else {
 				o.states = append(o.states, int(sr.ss.State()))
 			}
+			tr := sr.ss.Transport()
+			o.tcp = append(o.tcp, tr != nil && tr.Protocol == gortsplib.ProtocolTCP)
 		}
 		var last *stepObs
 		if len(obs) > 0 {
@@ -724,6 +727,11 @@ func runAllResults(ctx *hx.Ctx, cases []caseSpec, workers int) []caseResult {
 		ctx.Nontrivial(r.nontrivial)
 		for _, f := range r.fails {
 			ctx.Failf(idx, f.class, r.caseLine, "%s", f.detail)
+		}
+		if ctx.Prop != "C19" { // the C19 run applies its ownership oracles itself (c19.go)
+			for _, f := range attachedPinOracle(cases[i], r) {
+				ctx.Failf(idx, f.class, r.caseLine, "%s", f.detail)
+			}
 		}
 	}
 	return results
